@@ -9,6 +9,8 @@ from mir import canon
 PUT_W = {'put_u8': 1, 'put_u16_le': 2, 'put_u32_le': 4, 'put_u64_le': 8, 'put_u128_le': 16, 'put_f32_le': 4, 'put_f64_le': 8,
          'put_i8': 1, 'put_i16_le': 2, 'put_i32_le': 4, 'put_i64_le': 8, 'put_i128_le': 16, 'put_u16': 2, 'put_u32': 4, 'put_u64': 8}
 GET_W = {'get_u8': 1, 'get_u16_le': 2, 'get_u32_le': 4, 'get_u64_le': 8, 'get_u128_le': 16, 'get_f32_le': 4, 'get_f64_le': 8, 'get_i8': 1}
+READ_W = {'read_u8': 1, 'read_u16_le': 2, 'read_u32_le': 4, 'read_u64_le': 8, 'read_u128_le': 16, 'read_exact': 'v'}
+WRITE_W = {'write_u8': 1, 'write_u16_le': 2, 'write_u32_le': 4, 'write_u64_le': 8, 'write_u128_le': 16}
 INT_W = {'u8': 1, 'u16': 2, 'u32': 4, 'u64': 8, 'u128': 16, 'f32': 4, 'f64': 8, 'i8': 1, 'i16': 2, 'i32': 4, 'i64': 8, 'i128': 16, 'usize': 8}
 
 
@@ -32,6 +34,10 @@ def raw_items(ctx, fn, helpers):
                 out.append((c.ln, c.bb, str(INT_W.get(ty, '?')), b))
             elif last in GET_W and 'Buf' in decl:
                 out.append((c.ln, c.bb, str(GET_W[last]), b))
+            elif last in READ_W and ('AsyncReadExt' in decl or 'io::Read' in decl):
+                out.append((c.ln, c.bb, str(READ_W[last]), b))
+            elif last in WRITE_W and ('AsyncWriteExt' in decl or 'io::Write' in decl):
+                out.append((c.ln, c.bb, str(WRITE_W[last]), b))
             elif last in ('from_utf8', 'from_utf8_lossy', 'to_vec', 'copy_from_slice', 'copy_to_bytes'):
                 out.append((c.ln, c.bb, 'v', b))
             elif c.name in helpers and c.name != fn:
@@ -161,3 +167,238 @@ def count_prefixes(ctx, fn):
             p = max(dom, key=lambda c: len(b.dominators(c.bb)))
             out.append((coll, canon(b.pexpr_operand(p.args[1]), 0, 2)))
     return sorted(out, key=str)
+
+
+def addressed_layout(ctx, fn):
+    """offset-addressed codecs: [(start, end, role)] — for writers `buf[a..b].copy_from_slice(&X.to_le_bytes())` gives role =
+    terminal field/param name of X; for readers `uN::from_le_bytes(buf[a..b])` gives role = the constructor parameter /
+    aggregate field / named local that receives the value"""
+    from mir import walk
+    out = []
+    b = ctx.fn_body(fn)
+
+    def rng(e):
+        for x in walk(e):
+            if x[0] == 'agg' and x[1].endswith('Range') and x[2] == 'Range':
+                d = dict(x[3])
+                if d.get('start', ('?',))[0] == 'const' and d.get('end', ('?',))[0] == 'const':
+                    return int(d['start'][1]), int(d['end'][1])
+        return None
+
+    def terminal(e):
+        from lib import strip_adaptors
+        e = strip_adaptors(e)
+        while e[0] == 'call' and e[2] and e[1].split('::')[-1] in ('to_le_bytes', 'as_bytes_u64', 'as_bytes_usize', 'into', 'from', 'as_micros'):
+            e = strip_adaptors(e[2][0])
+        if e[0] == 'field':
+            return e[2]
+        if e[0] in ('param', 'upvar'):
+            return e[1]
+        return canon(e, 0, 1)
+
+    for c in b.calls:
+        if c.x.startswith('m:'):
+            continue
+        last = (c.fn or '').split('::')[-1]
+        if last == 'copy_from_slice' and len(c.args) == 2:
+            r = rng(b.pexpr_operand(c.args[0]))
+            if r:
+                out.append((r[0], r[1], terminal(b.pexpr_operand(c.args[1]))))
+        elif last == 'from_le_bytes' and c.args:
+            r = rng(b.pexpr_operand(c.args[0]))
+            if not r:
+                continue
+            role = None
+            for d in b.calls:
+                if d.bb == c.bb or d.x.startswith('m:'):
+                    continue
+                rec = ctx.fn_record(d.name)
+                for i, a in enumerate(d.args):
+                    e = b.pexpr_operand(a)
+                    direct = e[0] == 'call' and e[3] == c.bb or (e[0] in ('try',) and e[1][0] == 'call' and e[1][3] == c.bb)
+                    from lib import strip_adaptors
+                    se = strip_adaptors(e)
+                    if se[0] == 'call' and se[3] == c.bb and rec and rec.get('pnames') and i < len(rec['pnames']):
+                        role = rec['pnames'][i]
+            if role is None:
+                for blk in sorted(b.reach):
+                    for s in b.stmts(blk):
+                        rv = s.get('rv')
+                        if rv and rv['r'] == 'agg' and rv.get('kind') == 'adt':
+                            e = b._pexpr_rvalue(rv, 0, frozenset())
+                            from lib import strip_adaptors
+                            for n, v in e[3]:
+                                sv = strip_adaptors(v)
+                                if sv[0] == 'call' and sv[3] == c.bb:
+                                    role = n
+            if role is None and c.dest:
+                role = b.root_var(c.dest) or '?'
+            out.append((r[0], r[1], role))
+    return sorted(out)
+
+
+# ---------------------------------------------------------------------------------------------------- named layouts
+def _leaf_names(e):
+    """names of the struct fields (else parameters) an expression is computed from; of a chain a.b.c only c"""
+    fields, params = [], []
+
+    def go(x, d=0):
+        if not isinstance(x, tuple) or not x or d > 30:
+            return
+        if isinstance(x[0], str):
+            k = x[0]
+            if k == 'field' and not x[2].isdigit():
+                fields.append(x[2])
+                return
+            if k in ('param', 'upvar'):
+                if x[1] not in ('self', 'bytes', 'buf', 'buffer'):
+                    params.append(x[1])
+                return
+            if k in ('const', 'constitem', 'fnitem', 'closure'):
+                return
+            for y in x[1:]:
+                go(y, d + 1)
+        else:
+            for y in x:
+                go(y, d + 1)
+    go(e)
+    return fields or params
+
+
+def _control_field(b, bb):
+    """`put(if x.f {1} else {0})`: the field tested by the branch that selects the constant"""
+    d = b.idom.get(bb)
+    steps = 0
+    while d is not None and steps < 3:
+        t = b.term(d)
+        if t.get('t') == 'switch':
+            return _leaf_names(b.pexpr_operand(t['op']))
+        nd = b.idom.get(d)
+        if nd == d:
+            break
+        d = nd
+        steps += 1
+    return []
+
+
+def _is_put(c):
+    decl = c.fn or ''
+    last = decl.split('::')[-1]
+    return (last in PUT_W and 'BufMut' in decl) or (last in ('put_slice', 'put', 'extend', 'extend_from_slice', 'put_bytes') and ('BufMut' in decl or 'BytesMut' in decl or 'Extend' in decl)) \
+        or (last in WRITE_W and ('AsyncWriteExt' in decl or 'io::Write' in decl))
+
+
+def _expandable(name):
+    return name.startswith('server::binary::mapper::') or name.startswith('iggy::binary::mapper::') or name.endswith('::extend')
+
+
+def named_writer(ctx, fn, helpers=(), depth=0):
+    """[label] in source order: for every value written, the field(s) it is computed from; buffer-taking helpers are expanded in place"""
+    out = []
+    defs = [x for x in ctx.facts.body_defs() if x == fn or x.startswith(fn + '::{closure')]
+    for dd in sorted(defs):
+        b = ctx.body(dd)
+        for c in b.calls:
+            if c.x.startswith('m:'):
+                continue
+            if c.name in helpers and c.name != fn and _expandable(c.name) and depth < 3 and not _is_put(c):
+                out.append((c.ln or 0, c.bb, named_writer(ctx, c.name, helpers, depth + 1)))
+                continue
+            if not _is_put(c) or len(c.args) < 2:
+                continue
+            e = b.pexpr_operand(c.args[1])
+            names = _leaf_names(e)
+            if not names and any(x[0] == 'const' for x in ([e] if e[0] != 'phi' else e[1])):
+                names = _control_field(b, c.bb)
+            out.append((c.ln or 0, c.bb, ['+'.join(sorted(set(names))) or '_']))
+    out.sort(key=lambda x: (x[0], x[1]))
+    return [l for x in out for l in x[2]]
+
+
+def _depth_of_call(e, bb, d=0):
+    """depth at which the call made in block bb occurs inside expression e (None if it does not)"""
+    if not isinstance(e, tuple) or not e or d > 25:
+        return None
+    if isinstance(e[0], str):
+        if e[0] == 'call' and len(e) > 3 and e[3] == bb:
+            return d
+        if e[0] in ('const', 'constitem', 'param', 'upvar', 'local', 'fnitem'):
+            return None
+        kids = e[1:]
+    else:
+        kids = e
+    best = None
+    for x in kids:
+        r = _depth_of_call(x, bb, d + 1)
+        if r is not None and (best is None or r < best):
+            best = r
+    return best
+
+
+def named_reader(ctx, fn, helpers=(), depth=0):
+    """[label] in source order: for every value read, the aggregate field / callee parameter it ends up in"""
+    out = []
+    defs = [x for x in ctx.facts.body_defs() if x == fn or x.startswith(fn + '::{closure')]
+    for dd in sorted(defs):
+        b = ctx.body(dd)
+        reads = []
+        for c in b.calls:
+            if c.x.startswith('m:'):
+                continue
+            decl = c.fn or ''
+            last = decl.split('::')[-1]
+            if c.name in helpers and c.name != fn and _expandable(c.name) and depth < 3:
+                out.append((c.ln or 0, c.bb, named_reader(ctx, c.name, helpers, depth + 1)))
+            elif last == 'from_le_bytes' or (last in GET_W and 'Buf' in decl) or (last in READ_W and ('AsyncReadExt' in decl or 'io::Read' in decl)) \
+                    or last in ('from_utf8', 'from_utf8_lossy', 'copy_to_bytes') or (c.name in helpers and c.name != fn):
+                reads.append(c)
+        if not reads:
+            continue
+        sinks = []   # (expr, label)  aggregate fields
+        csinks = []  # (expr, label)  callee parameters
+        for blk in sorted(b.reach):
+            for s in b.stmts(blk):
+                rv = s.get('rv')
+                if rv and rv['r'] == 'agg' and rv.get('kind') == 'adt' and not s.get('x', '').startswith('m:') and rv['adt'] not in ('std::option::Option', 'std::result::Result'):
+                    e = b._pexpr_rvalue(rv, 0, frozenset())
+                    for n, v in e[3]:
+                        if not n.isdigit():
+                            sinks.append((v, n))
+        for d in b.calls:
+            if d.x.startswith('m:'):
+                continue
+            rec = ctx.fn_record(d.name)
+            if rec and rec.get('pnames') and (d.name.startswith('iggy::') or d.name.startswith('server::') or d.name.startswith('<iggy::') or d.name.startswith('<server::')):
+                for i, a in enumerate(d.args):
+                    if i < len(rec['pnames']) and rec['pnames'][i] not in ('bytes', 'start', 'end', 'len', 'data', 'src', 'buf', 'self', 'value', 'v', 'k', 'payload', 'position'):
+                        csinks.append((b.pexpr_operand(a), rec['pnames'][i]))
+        for c in reads:
+            labels = set()
+            for group in (sinks, csinks):
+                best = None
+                for e, n in group:
+                    dd_ = _depth_of_call(e, c.bb)
+                    if dd_ is None:
+                        continue
+                    if best is None or dd_ < best:
+                        best, labels = dd_, {n}
+                    elif dd_ == best:
+                        labels.add(n)
+                if labels:
+                    break
+            out.append((c.ln or 0, c.bb, ['+'.join(sorted(labels)) or '_']))
+    out.sort(key=lambda x: (x[0], x[1]))
+    return [l for x in out for l in x[2]]
+
+
+def named_agreement(w, r):
+    """compare two label sequences on the labels they share; returns (ok, w', r')"""
+    common = (set(w) & set(r)) - {'_'}
+    def f(seq):
+        o = []
+        for x in seq:
+            if x in common and (not o or o[-1] != x):
+                o.append(x)
+        return o
+    a, b = f(w), f(r)
+    return a == b, a, b
